@@ -354,7 +354,7 @@ def main(tier, seed, only=None):
     # a horizon that crosses the first year, in both stock regimes: months 11-13 symbolic, the others concrete (the report has its own per-month clean-up steps)
     chain += [dict(N=14, sym=["stored_food_to_humans", "meat_eaten"], sym_months=[11, 12, 13], consts=dict(STORE_FOOD_BETWEEN_YEARS=st)) for st in (True, False)]
     if thorough:
-        chain += [dict(N=3, sym=["stored_food_to_humans", "meat_eaten"]), dict(N=2, sym=PREF)]      # N=3 with three or more symbolic series exceeds 6000 paths
+        chain += [dict(N=2, sym=PREF)]      # three symbolic months (or three symbolic series over three months) exceed the 6000-path budget
     full = dict.fromkeys(LM.FOODS, True)
     core = dict(SEAWEED=False, OUTDOOR_GROWING=True, STORED_FOOD=True, MEAT=True, METHANE_SCP=False, CELLULOSIC_SUGAR=False)
     stages = [dict(N=n, opt=o, store=s, flags=f) for n in ([4, 14] if not thorough else [3, 4, 9, 14, 15]) for o in ("to_humans", "to_animals") for s in (True, False) for f in (full, core)]
@@ -366,7 +366,7 @@ def main(tier, seed, only=None):
                         "to_monthly_list_outdoor_crops_kcals", "validate_sources_add_up", "validate_outdoor_growing_production", "extract_meat_milk_results", "get_greenhouse_results",
                         "Interpreter.interpret_results", "assign_percent_fed_from_extractor", "assign_kcals_equivalent_from_extractor", "calculate_feed_and_biofuels", "assign_interpreted_properties",
                         "get_sum_by_adding_to_humans", "get_percent_people_fed", "correct_and_validate_rounding_errors", "Food.in_units*", "Food.get_min_nutrient", "Food.get_rounded_to_decimal"],
-             bounds="NMONTHS in {1,2} (thorough 3) with every month symbolic, and 14 months with months 11-13 symbolic in both stock regimes; constants (population, nutrition, seaweed kcal, fractions) of a real Argentina run", symbolic="the optimiser's variable values (per food, month), milk, fish, greenhouse, crop production",
+             bounds="NMONTHS in {1,2} with every month symbolic, and 14 months with months 11-13 symbolic in both stock regimes; constants (population, nutrition, seaweed kcal, fractions) of a real Argentina run", symbolic="the optimiser's variable values (per food, month), milk, fish, greenhouse, crop production",
              assumptions=["values >= 0", "paths on which the code's own validators assert are pruned and counted", "series the code rounds for display are compared within the rounding step (0.0005 percent)"],
              stubs=STUBS + ["interpret_results.pd.DataFrame replaced by a recorder (a concrete run writes and re-reads the real CSV)", "interpret_results.repo_root -> scratch directory", "stub model.variables()"],
              outside=["fat/protein series", "float formatting of the CSV beyond the concrete re-read", "more than 3 months (the chain is elementwise per month except the minimum)"], min_completed=1),
